@@ -83,12 +83,19 @@ void fp_exp_basic(fp_t c, const fp_t a, const bn_t b) {
 
 void fp_exp_slide(fp_t c, const fp_t a, const bn_t b) {
 	fp_t t[1 << (RLC_WIDTH - 1)], r;
-	uint8_t win[RLC_FP_BITS + 1];
+	/* The exponent may be longer than the field size. */
+	uint8_t *win = RLC_ALLOCA(uint8_t, bn_bits(b) + 1);
 	size_t l;
 
 	fp_null(r);
 
+	if (win == NULL) {
+		RLC_THROW(ERR_NO_MEMORY);
+		return;
+	}
+
 	if (bn_is_zero(b)) {
+		RLC_FREE(win);
 		fp_set_dig(c, 1);
 		return;
 	}
@@ -114,7 +121,7 @@ void fp_exp_slide(fp_t c, const fp_t a, const bn_t b) {
 		}
 
 		fp_set_dig(r, 1);
-		l = RLC_FP_BITS + 1;
+		l = bn_bits(b) + 1;
 		bn_rec_slw(win, &l, b, RLC_WIDTH);
 		for (size_t i = 0; i < l; i++) {
 			if (win[i] == 0) {
@@ -141,6 +148,7 @@ void fp_exp_slide(fp_t c, const fp_t a, const bn_t b) {
 			fp_free(t[i]);
 		}
 		fp_free(r);
+		RLC_FREE(win);
 	}
 }
 
